@@ -128,6 +128,7 @@ const (
 	LexerBuiltinOperator
 	LexerRuneLit
 	LexerRuneEscaped
+	LexerHexEscape // inside \xNN, \uNNNN or \UNNNNNNNN in a string or rune literal
 )
 
 type Lexer struct {
@@ -146,6 +147,13 @@ type Lexer struct {
 
 	priori    int
 	priorRune [20]rune
+
+	// pending \x, \u, \U escape: digits still to read, value so far,
+	// whether it denotes a byte (\x), and the state to return to.
+	hexNeed   int
+	hexVal    rune
+	hexIsByte bool
+	hexReturn LexerState
 }
 
 func (lexer *Lexer) AppendToken(tok Token) {
@@ -283,6 +291,12 @@ func EscapeChar(char rune) (rune, error) {
 		return '\a', nil
 	case 't':
 		return '\t', nil
+	case 'b':
+		return '\b', nil
+	case 'f':
+		return '\f', nil
+	case 'v':
+		return '\v', nil
 	case '\\':
 		return '\\', nil
 	case '"':
@@ -383,6 +397,26 @@ func (x *Lexer) DecodeAtom(atom string) (tk Token, err error) {
 	}
 
 	return x.EmptyToken(), fmt.Errorf("Unrecognized atom: '%s'", atom)
+}
+
+// startHexEscape recognises the x, u and U of the Go escapes \xNN, \uNNNN
+// and \UNNNNNNNN (the forms strconv.Quote prints) and arranges for the hex
+// digits to be collected.
+func (lexer *Lexer) startHexEscape(r rune, returnTo LexerState) bool {
+	switch r {
+	case 'x':
+		lexer.hexNeed, lexer.hexIsByte = 2, true
+	case 'u':
+		lexer.hexNeed, lexer.hexIsByte = 4, false
+	case 'U':
+		lexer.hexNeed, lexer.hexIsByte = 8, false
+	default:
+		return false
+	}
+	lexer.hexVal = 0
+	lexer.hexReturn = returnTo
+	lexer.state = LexerHexEscape
+	return true
 }
 
 func (lexer *Lexer) dumpBuffer() error {
@@ -549,12 +583,43 @@ top:
 		return nil
 
 	case LexerStrEscaped:
+		if lexer.startHexEscape(r, LexerStrLit) {
+			return nil
+		}
 		char, err := EscapeChar(r)
 		if err != nil {
 			return err
 		}
 		lexer.buffer.WriteRune(char)
 		lexer.state = LexerStrLit
+		return nil
+
+	case LexerHexEscape:
+		var d rune
+		switch {
+		case r >= '0' && r <= '9':
+			d = r - '0'
+		case r >= 'a' && r <= 'f':
+			d = r - 'a' + 10
+		case r >= 'A' && r <= 'F':
+			d = r - 'A' + 10
+		default:
+			return errors.New("invalid escape sequence")
+		}
+		lexer.hexVal = lexer.hexVal*16 + d
+		lexer.hexNeed--
+		if lexer.hexNeed > 0 {
+			return nil
+		}
+		if lexer.hexIsByte {
+			lexer.buffer.WriteByte(byte(lexer.hexVal))
+		} else {
+			if !utf8.ValidRune(lexer.hexVal) {
+				return errors.New("invalid escape sequence")
+			}
+			lexer.buffer.WriteRune(lexer.hexVal)
+		}
+		lexer.state = lexer.hexReturn
 		return nil
 
 	case LexerRuneLit:
@@ -573,6 +638,9 @@ top:
 		return nil
 
 	case LexerRuneEscaped:
+		if lexer.startHexEscape(r, LexerRuneLit) {
+			return nil
+		}
 		char, err := EscapeChar(r)
 		if err != nil {
 			return err
